@@ -68,6 +68,20 @@ func OpSet(o N, p string, e N) N {
 }
 func Incr(o N, p string) N { return N{"inc(" + o.SX + "," + p + ")", "(" + o.JS + "." + p + "++)"} }
 
+// AccFn is the getter (or setter) function that an object initialiser {get p() {…}} / {set p(v) {…}} creates where it
+// is evaluated, fetched with Object.getOwnPropertyDescriptor.
+func AccFn(isSet bool, f Fn) N {
+	k, kw, ps := "g", "get", ""
+	if isSet {
+		k, kw, ps = "s", "set", strings.Join(f.Params, ", ")
+	}
+	g := Fn{Params: f.Params, Vars: f.Vars, Decls: f.Decls, Body: f.Body}
+	if !isSet {
+		g.Params = nil
+	}
+	return N{"acf(" + k + "," + g.Expr().SX + ")", "Object.getOwnPropertyDescriptor({" + kw + " p(" + ps + ") { " + bodyJS(g.Vars, g.Decls, g.Body, 0) + " }}, \"p\")." + kw}
+}
+
 // FnCtor is Function("<body>") for a function without name and parameters.
 func FnCtor(f Fn) N {
 	return N{"fnc(" + Fn{Vars: f.Vars, Decls: f.Decls, Body: f.Body}.Expr().SX + ")", "Function(" + strconv.Quote(bodyJS(f.Vars, f.Decls, f.Body, 0)) + ")"}
